@@ -9,9 +9,9 @@ from __future__ import annotations
 import ast
 
 from ..cfg import cfg_of
-from ..flow import flow_of, path_of
+from ..flow import deref, flow_of, path_of
 from ..loader import FUNC, AnalysisError, dotted, last_name, loc, short, walk_local
-from ..util import PATH, SYSTEM, kwarg
+from ..util import PATH, SYSTEM, kwarg, oriented
 from ..variants import B, K
 
 EXPLANATION = (
@@ -167,63 +167,78 @@ def r153(ctx):
     if len(loops) != 2:
         raise AnalysisError(f"R-15.3: paste_paths has {len(loops)} top-level loops (expected 2: backward, forward)")
     lb, lf = loops
+    def loop_parts(L):
+        """(element variable, index variable or None, iterated expression without enumerate)."""
+        it, tgt, idx = L.iter, L.target, None
+        if isinstance(it, ast.Call) and last_name(it) == "enumerate" and it.args and isinstance(tgt, ast.Tuple) and len(tgt.elts) == 2:
+            start = it.args[1] if len(it.args) > 1 else next((k.value for k in it.keywords if k.arg == "start"), None)
+            if start is None or (isinstance(start, ast.Constant) and start.value == 0):
+                idx = tgt.elts[0].id if isinstance(tgt.elts[0], ast.Name) else None
+            it, tgt = it.args[0], tgt.elts[1]
+        return (tgt.id if isinstance(tgt, ast.Name) else None), idx, it
+
+    eb, ib, itb_ = loop_parts(lb)
+    ef, if_, itf_ = loop_parts(lf)
     # (a) backward loop iterates reversed(path_back.phasepoints)
-    itb = ast.unparse(lb.iter)
+    itb = ast.unparse(itb_)
     if itb in (f"reversed({pb}.phasepoints)", f"{pb}.phasepoints[::-1]"):
         ctx.ok(rid, lb, "the backward segment is visited in reverse (time order)")
     else:
         ctx.bad(rid, lb, f"the first loop of paste_paths iterates `{itb}`, not the backward segment in reverse: the pasted path is not time ordered / does not begin with the last backward frame", construct="paste_paths first loop over " + itb)
     # (b) forward loop iterates path_forw.phasepoints in order
-    itf = ast.unparse(lf.iter)
+    itf = ast.unparse(itf_)
     if itf == f"{pf}.phasepoints":
         ctx.ok(rid, lf, "the forward segment is visited in order after the backward one")
     else:
         ctx.bad(rid, lf, f"the second loop of paste_paths iterates `{itf}`, not the forward segment in order", construct="paste_paths second loop over " + itf)
-    # (c) every visited frame is appended (append on every path through the body that does not `continue`)
-    for L, nm in ((lb, "backward"), (lf, "forward")):
-        apps = [c for c in ast.walk(L) if isinstance(c, ast.Call) and isinstance(c.func, ast.Attribute) and c.func.attr == "append" and c.args and isinstance(c.args[0], ast.Name) and isinstance(L.target, ast.Name) and c.args[0].id == L.target.id]
+    # (c)+(d) on the CFG: from the loop head, the next iteration is reached only through an
+    # append of the visited frame, or through the one `continue` that skips the shared point
+    for L, nm, ev, iv in ((lb, "backward", eb, ib), (lf, "forward", ef, if_)):
+        head = cfg.node_of(L)
+        apps = [c for c in ast.walk(L) if isinstance(c, ast.Call) and isinstance(c.func, ast.Attribute) and c.func.attr == "append" and c.args and isinstance(c.args[0], ast.Name) and c.args[0].id == ev]
+        app_nodes = {nd for c in apps for nd in cfg.nodes_of(c)}
         conts = [n for n in ast.walk(L) if isinstance(n, ast.Continue)]
-        top_level = [st for st in L.body if any(a in list(ast.walk(st)) for a in apps) and isinstance(st, (ast.Assign, ast.Expr))]
-        if apps and top_level:
-            ctx.ok(rid, apps[0], f"every {nm} frame that is not skipped is appended (unconditional append in the loop body)")
+        # a continue "skips" when it can be reached from the head without passing an append
+        skipping = [c for c in conts if any(cn.id in cfg.reachable(head, avoid=app_nodes) for cn in cfg.nodes_of(c))]
+        skip_nodes = {nd for c in skipping for nd in cfg.nodes_of(c)}
+        if not apps:
+            ctx.bad(rid, L, f"the {nm} loop of paste_paths does not append the frames it visits", construct=f"paste_paths {nm} loop without append")
+            continue
+        if head.id in cfg.reachable(head, avoid=app_nodes | skip_nodes):
+            ctx.bad(rid, L, f"the {nm} loop of paste_paths does not append every frame it visits: the length is not len(back) + len(forward) - shared", construct=f"paste_paths {nm} loop: an iteration can complete without append")
         else:
-            ctx.bad(rid, L, f"the {nm} loop of paste_paths does not append every frame it visits: the length is not len(back) + len(forward) - shared", construct=f"paste_paths {nm} loop without unconditional append")
-        if nm == "backward" and conts:
-            ctx.bad(rid, conts[0], "the backward loop of paste_paths skips frames", construct="continue in backward loop")
-        if nm == "forward":
-            # (d) exactly one skip, iff overlap
-            if len(conts) != 1:
-                ctx.bad(rid, L, f"the forward loop of paste_paths has {len(conts)} `continue` statements (expected exactly one: the shared point)", construct="forward loop continue count")
-                continue
-            cont = conts[0]
-            gi = getattr(cont, "_parent", None)
-            if not isinstance(gi, ast.If) or gi not in L.body:
-                raise AnalysisError("R-15.3: the skip of the shared point is not a top-level `if` of the forward loop")
-            names = set()
-            t = gi.test
-            okform = isinstance(t, ast.BoolOp) and isinstance(t.op, ast.And) and all(isinstance(v, ast.Name) for v in t.values)
-            if okform:
-                names = {v.id for v in t.values}
-            flag = next(iter(names - {ov}), None) if okform and ov in names and len(names) == 2 else None
-            if flag is None:
-                ctx.bad(rid, gi, f"the shared point is skipped under `{short(t, 40)}`, not under `<first-iteration flag> and {ov}`: a frame is dropped when the segments do not overlap, or none when they do", construct="skip condition " + short(t, 40))
-                continue
-            # flag: True before the loop, set False inside the skipping branch, never set True in the loop
-            sets_false = any(isinstance(s, ast.Assign) and isinstance(s.targets[0], ast.Name) and s.targets[0].id == flag and isinstance(s.value, ast.Constant) and s.value.value is False for s in gi.body)
-            init_true = False
-            idx = f.body.index(L)
-            for s in f.body[:idx]:
-                if isinstance(s, ast.Assign) and isinstance(s.targets[0], ast.Name) and s.targets[0].id == flag:
-                    init_true = isinstance(s.value, ast.Constant) and s.value.value is True
-            other_sets = [s for s in ast.walk(L) if isinstance(s, ast.Assign) and isinstance(s.targets[0], ast.Name) and s.targets[0].id == flag and not (isinstance(s.value, ast.Constant) and s.value.value is False)]
-            # the skip is decided before the frame is appended: nothing but observability precedes it
-            from ..cfg import _is_logging_stmt
-            before = L.body[: L.body.index(gi)]
-            first_stmt = all(_is_logging_stmt(s_) or (isinstance(s_, ast.Expr) and isinstance(s_.value, ast.Constant)) for s_ in before)
-            if sets_false and init_true and not other_sets and first_stmt:
-                ctx.ok(rid, gi, f"exactly the first forward frame is skipped, and only when `{ov}` (flag `{flag}`: True before the loop, cleared in the skipping branch, never set again)")
-            else:
-                ctx.bad(rid, gi, "the skip of the shared point is not limited to the first forward frame (flag not initialised True / not cleared in the branch / set again / test not first in the body): more or fewer than one frame is dropped", construct="one-shot skip flag " + flag)
+            ctx.ok(rid, apps[0], f"every {nm} frame that is not skipped is appended (no path to the next iteration avoids the append)")
+        if nm == "backward":
+            if skipping:
+                ctx.bad(rid, skipping[0], "the backward loop of paste_paths skips frames", construct="continue in backward loop")
+            continue
+        # forward: exactly one skip, taken in the first iteration iff overlap
+        if len(skipping) != 1:
+            ctx.bad(rid, L, f"the forward loop of paste_paths skips frames at {len(skipping)} places (expected exactly one: the shared point)", construct="forward loop skip count")
+            continue
+        sk = skipping[0]
+        facts = [(e, t) for e, t, bn in cfg.guards(cfg.node_of(sk)) if any(x is bn.ast or any(y is bn.ast for y in ast.walk(x)) for x in ast.walk(L))]
+        has_ov = any(isinstance(e, ast.Name) and e.id == ov and t for e, t in facts)
+        first_by_index = False
+        for e, t in facts:
+            o = oriented(e, lambda x: isinstance(x, ast.Name) and x.id == iv) if iv else None
+            if o is not None and t and isinstance(o[1], ast.Eq) and isinstance(o[2], ast.Constant) and o[2].value == 0:
+                first_by_index = True
+        flagnames = [e.id for e, t in facts if isinstance(e, ast.Name) and e.id != ov and t]
+        first_by_flag = False
+        for flag in flagnames:
+            gi = getattr(sk, "_parent", None)
+            sets_false = any(isinstance(s_, ast.Assign) and isinstance(s_.targets[0], ast.Name) and s_.targets[0].id == flag and isinstance(s_.value, ast.Constant) and s_.value.value is False for s_ in (gi.body if isinstance(gi, ast.If) else []))
+            idxL = f.body.index(L)
+            init_true = any(isinstance(s_, ast.Assign) and isinstance(s_.targets[0], ast.Name) and s_.targets[0].id == flag and isinstance(s_.value, ast.Constant) and s_.value.value is True for s_ in f.body[:idxL])
+            other_sets = [s_ for s_ in ast.walk(L) if isinstance(s_, ast.Assign) and isinstance(s_.targets[0], ast.Name) and s_.targets[0].id == flag and not (isinstance(s_.value, ast.Constant) and s_.value.value is False)]
+            if sets_false and init_true and not other_sets:
+                first_by_flag = True
+        extra = [short(e, 30) for e, t in facts if not ((isinstance(e, ast.Name) and (e.id == ov or e.id in flagnames)) or (iv and iv in ast.unparse(e)))]
+        if has_ov and (first_by_index or first_by_flag) and not extra:
+            ctx.ok(rid, sk, f"exactly the first forward frame is skipped, and only when `{ov}` ({'enumerate index == 0' if first_by_index else 'one-shot flag'})")
+        else:
+            ctx.bad(rid, sk, f"the shared point is skipped under {[('' if t else 'not ') + short(e, 30) for e, t in facts]}, not under `<first iteration> and {ov}`: a frame is dropped when the segments do not overlap, more than one frame is dropped, or none when they do", construct="skip condition of the forward loop")
     # (e) the new path is created with the limit and Path.append refuses at the limit
     ap = tree.func(PATH, "Path.append")
     okc = False
@@ -269,13 +284,17 @@ def r154(ctx):
         params = [a.arg for a in f.args.args]
         left, right = params[1], params[2]
         want = left if side == "left" else right
+        ffl = flow_of(f)
+
+        def is_order(x, c):
+            e_, _ = deref(ffl, x, ffl.cfg.node_of(c))
+            return ".order[" in ast.unparse(e_)
+
         for c in [c for c in walk_local(f) if isinstance(c, ast.Compare) and len(c.ops) == 1]:
-            l, r = ast.unparse(c.left), ast.unparse(c.comparators[0])
-            if r == want and ".order[0]" in l:
-                return c, isinstance(c.ops[0], (ast.LtE, ast.GtE))
-            if l == want and ".order[0]" in r:
-                return c, isinstance(c.ops[0], (ast.LtE, ast.GtE))
-        raise AnalysisError(f"R-15.4: comparison with `{want}` not found in {fname}")
+            o = oriented(c, lambda x: is_order(x, c))
+            if o is not None and ast.unparse(o[2]) == want:
+                return c, isinstance(o[1], (ast.LtE, ast.GtE))
+        raise AnalysisError(f"R-15.4: comparison of the frame's order parameter with `{want}` not found in {fname}")
 
     ec, end_incl = incl("get_end_point", "right")
     sc, start_incl = incl("get_start_point", "left")
